@@ -217,7 +217,7 @@ func runC15(c *Ctx) {
 		em := p.Fn("sio", "clientSocket.emit")
 		isQueue := callPred(`\(\*sio\.clientPacketQueue\)\.addToQueue`)
 		if len(findInstrs(em, isQueue)) == 0 {
-			anchorFail("C15-D4: clientSocket.emit no longer hands packets to the retry queue (addToQueue not found)")
+			c.Undecided("C15-D4: clientSocket.emit no longer hands packets to the retry queue (addToQueue not found)")
 		}
 		r, tr := PrunedCanReach(em, nil, []Assume{{`volatile`, true}, {`!volatile`, false}}, isQueue, nil)
 		c.Ob("C15-D4", "sio.clientSocket.emit/volatile-not-queued", em.Pos(), !r, "a volatile emit can enter the retry queue: it is kept while disconnected and delivered after the reconnect: "+trailString(p, tr))
